@@ -303,6 +303,8 @@ def _s_n_edges(eng, st, g):
 
 @spec('keys', lambda d: list(d))
 def _s_keys(eng, st, d):
+    if isinstance(d.ty, TOpt):
+        d = Val(d.ty.inner, d.ty.get(d.t))
     return ops.dict_keys(d)
 
 
@@ -598,3 +600,12 @@ def _n_ends_in_digit(d):
 def _s_ends_in_digit(eng, st, d):
     last = z3.SubString(d.t, z3.Length(d.t) - 1, 1)
     return Val(TBool, z3.And(z3.Length(d.t) >= 1, z3.Or(*[last == z3.StringVal(c) for c in '0123456789'])))
+
+
+def _n_key_index(d, k):
+    return list(d).index(k)
+
+
+@spec('key_index', _n_key_index, ret=TInt)
+def _s_key_index(eng, st, d, k):
+    return Val(TInt, d.ty.idx(d.t)[ops.coerce(k, d.ty.key).t])
